@@ -58,16 +58,36 @@ def field(u, src, F, info):
     u.add(f"""pub open spec fn QM() -> int {{ {hx(q)} }}
 pub open spec fn WN() -> int {{ {hx(Wn)} }}
 pub open spec fn RINV() -> int {{ {hx(rinv)} }}
+#[verifier::opaque]
 pub open spec fn lv(r: {R}) -> int {{ {poly(limbs)} }}
 // the field value of an element in Montgomery form
 pub open spec fn mv(x: {F}) -> int {{ (lv(x.0) * RINV()) % QM() }}
+pub proof fn lemma_lv_range(r: {R}) ensures 0 <= lv(r) < WN() {{ reveal(lv); }}
+pub proof fn lemma_qodd() ensures QM() % 2 == 1, QM() > 1 {{ assert(QM() % 2 == 1 && QM() > 1) by(compute); }}
 pub proof fn lemma_consts() ensures lv(MODULUS) == QM(), (WN() * RINV()) % QM() == 1, (1 + (INV as int) * (MODULUS.0[0] as int)) % W64() == 0, lv(R2) == (WN() * WN()) % QM(), 0 < QM() < WN(), 2 * QM() < WN()
 {{
+    reveal(lv);
     assert(lv(MODULUS) == QM()) by(compute);
     assert((WN() * RINV()) % QM() == 1) by(compute);
     assert((1 + (INV as int) * (MODULUS.0[0] as int)) % W64() == 0) by(compute);
     assert(lv(R2) == (WN() * WN()) % QM()) by(compute);
 }}
+// the invariant of the inverse loop, kept opaque so that the loops never see modular arithmetic: b * a == u * R^2 (mod q)
+#[verifier::opaque]
+pub open spec fn inv_rel(bv: int, uv: int, la: int) -> bool {{ (bv * la) % QM() == (uv * lv(R2)) % QM() }}
+pub proof fn lemma_rel_init(la: int) requires 0 <= la ensures inv_rel(lv(R2), la, la), inv_rel(0, QM(), la)
+{{
+    reveal(inv_rel); lemma_consts();
+    assert(lv(R2) * la == la * lv(R2)) by(nonlinear_arith);
+    assert(0 * la == 0); lemma_mod_multiples_basic(lv(R2), QM()); assert(QM() * lv(R2) == lv(R2) * QM()) by(nonlinear_arith); lemma_small_mod(0, QM() as nat);
+}}
+pub proof fn lemma_rel_half(b0: int, b2: int, u0: int, la: int) requires inv_rel(b0, u0, la), u0 % 2 == 0, 2 * b2 == b0 || 2 * b2 == b0 + QM() ensures inv_rel(b2, u0 / 2, la)
+{{ reveal(inv_rel); lemma_qodd(); lemma_inv_half(b0, b2, u0, la, lv(R2), QM()); }}
+pub proof fn lemma_rel_sub(b0: int, c: int, b2: int, u0: int, v: int, la: int, x: {F}, x0: {F}, y: {F})
+    requires inv_rel(b0, u0, la), inv_rel(c, v, la), lv(x.0) == b2, lv(x0.0) == b0, lv(y.0) == c, 0 <= b2 < QM(), mv(x) == (mv(x0) - mv(y)) % QM() ensures inv_rel(b2, u0 - v, la)
+{{ reveal(inv_rel); lemma_consts(); lemma_mv_back(b2, b0, c, QM(), WN(), RINV()); lemma_inv_sub(b0, c, b2, u0, v, la, lv(R2), QM()); }}
+pub proof fn lemma_rel_done(bv: int, la: int, x: {F}, a: {F}) requires inv_rel(bv, 1, la), lv(x.0) == bv, lv(a.0) == la ensures (mv(x) * mv(a)) % QM() == 1
+{{ reveal(inv_rel); lemma_consts(); lemma_qodd(); lemma_inv_done(bv, la, lv(R2), QM(), WN(), RINV()); }}
 // limb-level contracts of the representation type (unit kani:limbs proves them on the compiled code for every limb value)
 impl {R} {{
     #[verifier::external_body]
@@ -87,6 +107,10 @@ impl {R} {{
     #[verifier::external_body]
     pub fn is_zero(&self) -> (ret: bool) ensures ret == (lv(*self) == 0) {{ unimplemented!() }}
     #[verifier::external_body]
+    pub fn is_even(&self) -> (ret: bool) ensures ret == (lv(*self) % 2 == 0) {{ unimplemented!() }}
+    #[verifier::external_body]
+    pub fn div2(&mut self) ensures lv(*final(self)) == lv(*old(self)) / 2 {{ unimplemented!() }}
+    #[verifier::external_body]
     pub fn from(val: u64) -> (ret: {R}) ensures lv(ret) == val {{ unimplemented!() }}
 }}
 #[verifier::external_body]
@@ -96,7 +120,7 @@ impl {F} {{""")
     u.add(u.real_fn(mod, f'impl {F}', 'is_valid', "    ensures ret == (lv(self.0) < QM())", ret='ret', vis='pub',
                     body_edit=lambda b: cmp_rule(u, b).replace('{', '{ proof { lemma_consts(); }', 1)))
     u.add(u.real_fn(mod, f'impl {F}', 'reduce', "    requires lv(old(self).0) < 2 * QM()\n    ensures lv(final(self).0) < QM(), lv(final(self).0) % QM() == lv(old(self).0) % QM()", vis='pub',
-                    body_edit=lambda b: b.replace('{', '{ proof { lemma_consts(); lemma_reduce_mod(lv(self.0), QM()); }', 1)))
+                    body_edit=lambda b: b.replace('{', '{ proof { lemma_consts(); lemma_lv_range(self.0); lemma_reduce_mod(lv(self.0), QM()); }', 1)))
     u.add(u.real_fn(mod, f'impl {F}', 'mont_reduce',
                     f"    requires {poly([f'r{i}' for i in range(2 * n)])} < QM() * WN()\n"
                     f"    ensures lv(final(self).0) < QM(), (lv(final(self).0) * WN()) % QM() == ({poly([f'r{i}' for i in range(2 * n)])}) % QM()",
@@ -111,32 +135,52 @@ impl {F} {{""")
                     vis='pub', body_edit=lambda b: square_edit(u, b, n)))
     FH = f're:impl\\s+::ff::Field\\s+for\\s+{F}\\b'
     PH = f're:impl\\s+::ff::PrimeField\\s+for\\s+{F}\\b'
-    pre2 = "proof { lemma_consts(); }"
-    u.add(u.real_fn(mod, FH, 'zero', "    ensures lv(ret.0) < QM(), mv(ret) == 0", ret='ret', vis='pub',
-                    body_edit=lambda b: b.replace('{', '{ ' + pre2, 1), tail="proof { assert(0 * RINV() == 0); lemma_small_mod(0, QM() as nat); }"))
+    pre2 = "proof { lemma_consts(); lemma_lv_range(self.0); }"
+    u.add(u.real_fn(mod, FH, 'zero', "    ensures lv(ret.0) == 0, mv(ret) == 0", ret='ret', vis='pub',
+                    body_edit=lambda b: b.replace('{', '{ proof { lemma_consts(); }', 1), tail="proof { assert(0 * RINV() == 0); lemma_small_mod(0, QM() as nat); }"))
     u.add(u.real_fn(mod, FH, 'one', "    ensures lv(ret.0) < QM(), mv(ret) == 1", ret='ret', vis='pub',
-                    tail="proof { assert(lv(R) < QM() && (lv(R) * RINV()) % QM() == 1) by(compute); }"))
+                    tail="proof { reveal(lv); assert(lv(R) < QM() && (lv(R) * RINV()) % QM() == 1) by(compute); }"))
     u.add(u.real_fn(mod, FH, 'is_zero', "    requires lv(self.0) < QM()\n    ensures ret == (mv(*self) == 0)", ret='ret', vis='pub',
-                    body_edit=lambda b: b.replace('{', '{ proof { lemma_consts(); lemma_mv_zero(lv(self.0), QM(), WN(), RINV()); }', 1)))
+                    body_edit=lambda b: b.replace('{', '{ proof { lemma_consts(); lemma_lv_range(self.0); lemma_mv_zero(lv(self.0), QM(), WN(), RINV()); }', 1)))
     u.add(u.real_fn(mod, FH, 'add_assign', "    requires lv(old(self).0) < QM(), lv(other.0) < QM()\n    ensures lv(final(self).0) < QM(), mv(*final(self)) == (mv(*old(self)) + mv(*other)) % QM()", vis='pub',
-                    body_edit=lambda b: b.replace('{', '{ ' + pre2 + ' let ghost a_in = *self;', 1),
+                    body_edit=lambda b: b.replace('{', '{ ' + pre2 + ' proof { lemma_lv_range(other.0); } let ghost a_in = *self;', 1),
                     tail="proof { lemma_mv_lin(lv(self.0), lv(a_in.0), lv(other.0), 1, QM(), RINV()); }"))
     u.add(u.real_fn(mod, FH, 'double', "    requires lv(old(self).0) < QM()\n    ensures lv(final(self).0) < QM(), mv(*final(self)) == (mv(*old(self)) + mv(*old(self))) % QM()", vis='pub',
                     body_edit=lambda b: b.replace('{', '{ ' + pre2 + ' let ghost a_in = *self;', 1),
                     tail="proof { lemma_mv_lin(lv(self.0), lv(a_in.0), lv(a_in.0), 1, QM(), RINV()); }"))
     u.add(u.real_fn(mod, FH, 'sub_assign', "    requires lv(old(self).0) < QM(), lv(other.0) < QM()\n    ensures lv(final(self).0) < QM(), mv(*final(self)) == (mv(*old(self)) - mv(*other)) % QM()", vis='pub',
-                    body_edit=lambda b: gt_rule(u, b).replace('{', '{ ' + pre2 + ' let ghost a_in = *self;', 1),
+                    body_edit=lambda b: gt_rule(u, b).replace('{', '{ ' + pre2 + ' proof { lemma_lv_range(other.0); } let ghost a_in = *self;', 1),
                     tail="proof { let s = lv(self.0); let la = lv(a_in.0); let lb = lv(other.0); if lb > la { lemma_mod_sub_multiples_vanish(la + QM() - lb, QM()); } lemma_mv_lin(s, la, lb, -1, QM(), RINV()); }"))
     u.add(u.real_fn(mod, FH, 'negate', "    requires lv(old(self).0) < QM()\n    ensures lv(final(self).0) < QM(), mv(*final(self)) == (0 - mv(*old(self))) % QM()", vis='pub',
                     body_edit=lambda b: b.replace('{', '{ ' + pre2 + ' let ghost a_in = *self; proof { lemma_mv_zero(lv(self.0), QM(), WN(), RINV()); }', 1),
                     tail="proof { let s = lv(self.0); let la = lv(a_in.0); if la != 0 { lemma_mod_sub_multiples_vanish(QM() - la, QM()); } lemma_mv_lin(s, 0, la, -1, QM(), RINV()); assert(0 * RINV() == 0); lemma_small_mod(0, QM() as nat); }"))
+    inv_inv = ("invariant 0 <= lv(b.0) < QM(), 0 <= lv(c.0) < QM(), 0 <= lv(u) < WN(), 0 <= lv(v) < WN(), lv(one) == 1, la == lv(self.0), la < QM(), 2 * QM() < WN(), QM() % 2 == 1, lv(MODULUS) == QM(),\n"
+               "            inv_rel(lv(b.0), lv(u), la), inv_rel(lv(c.0), lv(v), la)")
+
+    def inv_edit(b):
+        b = b.replace('u != one && v != one', '!u.eq(&one) && !v.eq(&one)').replace('if v < u {', 'if v.lt(&u) {').replace('if u == one {', 'if u.eq(&one) {')
+        u.rewrites['R16'] = u.rewrites.get('R16', 0) + 4
+        b = weave.attach_loop_invariants(b, ["        " + inv_inv, "            " + inv_inv, "            " + inv_inv], u.rewrites)
+        b = b.replace('let mut c = Self::zero();', 'let mut c = Self::zero(); let ghost la = lv(self.0); proof { lemma_consts(); lemma_qodd(); lemma_lv_range(self.0); lemma_lv_range(R2); lemma_rel_init(la); lemma_mod_bound(WN() * WN(), QM()); }', 1)
+        for x, y in (('u', 'b'), ('v', 'c')):
+            b = b.replace(f'{x}.div2();', f'let ghost {x}0 = lv({x}); let ghost {y}0 = lv({y}.0); {x}.div2();', 1)
+            b = re.sub(r'(\} else \{ %s\.0\.add_nocarry\(&MODULUS\); %s\.0\.div2\(\); \})' % (y, y),
+                       r'\1 proof { lemma_consts(); lemma_rel_half(%s0, lv(%s.0), %s0, la); }' % (y, y, x), b, count=1)
+        b = b.replace('u.sub_noborrow(&v);', 'let ghost u0 = lv(u); let ghost bb0 = b; u.sub_noborrow(&v);', 1)
+        b = b.replace('b.sub_assign(&c);', 'b.sub_assign(&c); proof { lemma_lv_range(b.0); lemma_rel_sub(lv(bb0.0), lv(c.0), lv(b.0), u0, lv(v), la, b, bb0, c); }', 1)
+        b = b.replace('v.sub_noborrow(&u);', 'let ghost v0 = lv(v); let ghost cc0 = c; v.sub_noborrow(&u);', 1)
+        b = b.replace('c.sub_assign(&b);', 'c.sub_assign(&b); proof { lemma_lv_range(c.0); lemma_rel_sub(lv(cc0.0), lv(b.0), lv(c.0), v0, lv(u), la, c, cc0, b); }', 1)
+        b = b.replace('if u.eq(&one) {', 'proof { if lv(u) == 1 { lemma_rel_done(lv(b.0), la, b, *self); } if lv(v) == 1 { lemma_rel_done(lv(c.0), la, c, *self); } lemma_mv_zero(la, QM(), WN(), RINV()); } if u.eq(&one) {', 1)
+        return b
+    u.add(u.real_fn(mod, FH, 'inverse', "    requires lv(self.0) < QM()\n    ensures match ret { Some(y) => lv(y.0) < QM() && (mv(y) * mv(*self)) % QM() == 1 && mv(*self) != 0, None => mv(*self) == 0 }",
+                    ret='ret', vis='pub', attrs='#[verifier::exec_allows_no_decreases_clause]\n', body_edit=inv_edit))
     u.add(u.real_fn(mod, PH, 'into_repr', "    requires lv(self.0) < QM()\n    ensures lv(ret) == mv(*self), lv(ret) < QM()", ret='ret', vis='pub',
-                    body_edit=lambda b: b.replace('{', '{ ' + pre2, 1).replace('r.0\n', 'proof { lemma_into_repr(lv(r.0), lv(self.0), QM(), WN(), RINV()); } r.0\n', 1)))
+                    body_edit=lambda b: b.replace('{', '{ ' + pre2 + ' proof { reveal(lv); }', 1).replace('r.0\n', 'proof { lemma_into_repr(lv(r.0), lv(self.0), QM(), WN(), RINV()); } r.0\n', 1)))
     u.add(u.real_fn(mod, PH, 'from_repr', "    ensures (lv(r) < QM()) == ret.is_ok(), ret.is_ok() ==> mv(ret.unwrap()) == lv(r) && lv(ret.unwrap().0) < QM()", ret='ret', vis='pub',
-                    body_edit=lambda b: fmt_rule(u, b).replace('{', '{ ' + pre2 + ' let ghost r_in = r;', 1)
+                    body_edit=lambda b: fmt_rule(u, b).replace('{', '{ proof { lemma_consts(); lemma_lv_range(r); lemma_lv_range(R2); } let ghost r_in = r;', 1)
                     .replace('Ok(r)', 'proof { lemma_from_repr(lv(r.0), lv(r_in), lv(R2), QM(), WN(), RINV()); } Ok(r)', 1)))
     u.add(u.real_fn(mod, f're:impl\\s+::std::cmp::PartialEq\\s+for\\s+{F}\\b', 'eq', "    requires lv(self.0) < QM(), lv(other.0) < QM()\n    ensures ret == (mv(*self) == mv(*other))", ret='ret', vis='pub',
-                    body_edit=lambda b: eq_rule(u, b).replace('{', '{ proof { lemma_consts(); if mv(*self) == mv(*other) { lemma_mv_inj(lv(self.0), lv(other.0), QM(), WN(), RINV()); } }', 1)))
+                    body_edit=lambda b: eq_rule(u, b).replace('{', '{ proof { lemma_consts(); lemma_lv_range(self.0); lemma_lv_range(other.0); if mv(*self) == mv(*other) { lemma_mv_inj(lv(self.0), lv(other.0), QM(), WN(), RINV()); } }', 1)))
     u.add(u.real_fn(mod, f're:impl\\s+Ord\\s+for\\s+{F}\\b', 'cmp', "    requires lv(self.0) < QM(), lv(other.0) < QM()\n"
                     "    ensures ret == (if mv(*self) < mv(*other) { core::cmp::Ordering::Less } else if mv(*self) == mv(*other) { core::cmp::Ordering::Equal } else { core::cmp::Ordering::Greater })",
                     ret='ret', vis='pub', sig_edit=lambda sg: sg.replace('::std::cmp::Ordering', 'core::cmp::Ordering')))
@@ -202,7 +246,7 @@ def square_edit(u, b, n):
     diag = ' + '.join(f"{hx(W ** (2 * i))} * (({A[i]} as int) * ({A[i]} as int))" for i in range(n))
     off = ' + '.join(f"{hx(W ** (i + j))} * (({A[i]} as int) * ({A[j]} as int))" for i in range(n) for j in range(i + 1, n))
     allr = poly([f'r{j}' for j in range(2 * n)])
-    out.append(f" proof {{ lemma_consts(); let la = lv(self.0);"
+    out.append(f" proof {{ lemma_consts(); reveal(lv); let la = lv(self.0);"
                f" assert({allr} + {hx(W ** (2 * n))} * (carry as int) == vdbl + ({diag}));"
                f" assert(voff == {off});"
                f" lemma_schoolbook{n}({', '.join(f'{a} as int' for a in A)}, {', '.join(f'{a} as int' for a in A)});"
@@ -248,7 +292,7 @@ def reduce_edit(u, b, n, q):
     last = 0
     names = [f"r{i}" for i in range(2 * n)]
     # value before any round
-    head = "{ proof { lemma_consts(); } let ghost v0: int = " + poly(names) + "; let ghost mut acc: int = v0; let ghost mut c2: int = 0;"
+    head = "{ proof { lemma_consts(); reveal(lv); } let ghost v0: int = " + poly(names) + "; let ghost mut acc: int = v0; let ghost mut c2: int = 0;"
     for i, m in enumerate(rounds):
         seg = stmts[last:m.start()]
         if i > 0:
@@ -269,7 +313,7 @@ def reduce_edit(u, b, n, q):
            f" assert(({poly(names[n:])}) * WN() == {poly(names[n:], n)}) by(nonlinear_arith) requires WN() == {hx(W ** n)};"
            f" lemma_mont_final({poly(names[n:])}, acc, v0, kq, QM(), WN()); }} ")
     rest = tail[mm.start():]
-    rest = rest.replace('self.reduce();', f"proof {{ assert(lv(self.0) == {poly(names[n:])}); }} self.reduce(); proof {{ lemma_mont_result(lv(self.0), {poly(names[n:])}, v0, kq, QM(), WN()); }}", 1)
+    rest = rest.replace('self.reduce();', f"proof {{ reveal(lv); assert(lv(self.0) == {poly(names[n:])}); }} self.reduce(); proof {{ lemma_mont_result(lv(self.0), {poly(names[n:])}, v0, kq, QM(), WN()); }}", 1)
     out.append(fin + rest)
     body = ''.join(out)
     body = body.replace('{', head + " let ghost mut kq: int = 0;", 1)
@@ -315,7 +359,7 @@ def mul_edit(u, b, n):
     out.append(tail[:mm.start()])
     out.append(row_ck(n - 1, n, A, B))
     prod = ' + '.join(f"{hx(W ** i)} * ({' + '.join(f'{hx(W ** j)} * (({A[i]} as int) * ({B[j]} as int))' for j in range(n))})" for i in range(n))
-    out.append(f" proof {{ lemma_consts(); let la = lv(self.0); let lb = lv(other.0);"
+    out.append(f" proof {{ lemma_consts(); reveal(lv); let la = lv(self.0); let lb = lv(other.0);"
                f" lemma_schoolbook{n}({', '.join(f'{a} as int' for a in A)}, {', '.join(f'{x} as int' for x in B)});"
                f" assert({poly([f'r{j}' for j in range(2 * n)])} == la * lb);"
                f" assert(la * lb < QM() * WN()) by(nonlinear_arith) requires 0 <= la < QM(), 0 <= lb < QM(), QM() < WN(); }} let ghost a_in = *self; ")
